@@ -97,7 +97,7 @@ def run(sess):
     global FIELDS
     t1 = time.time()
     ob = Obligation('C06.parse_expr_loop', 'the real Pratt loop (parse_expr, executed from MIR) groups `a T1 b T2 c`, `not a T1 b`, `a T1 not b` and the `not in` forms exactly as the reference grammar, for every operator token T1, T2 chosen by the solver; chained comparisons are rejected',
-                    'token streams of at most 6 tokens: three identifier operands, two symbolic binary-operator tokens (all 20 single-token operators), prefix `not`, infix `not in`; operands are single identifiers')
+                    'token streams of at most 6 tokens: three identifier operands, two symbolic binary-operator tokens (all 20 single-token operators), prefix `not` (also before the first and the second operand of a two-operator chain), infix `not in`; operands are single identifiers')
     try:
         toks = enum_variants(LEXER, 'Token')
         binops = enum_variants(AST, 'BinOp')
@@ -121,8 +121,10 @@ def run(sess):
             ('a T1 b not in c', [ident('a'), s1, ident('b'), NOT, IN, ident('c')], [dom(T1)]),
             ('not a not in b', [NOT, ident('a'), NOT, IN, ident('b')], []),
             ('not not a T1 b', [NOT, NOT, ident('a'), s1, ident('b')], [dom(T1)]),
+            ('not a T1 b T2 c', [NOT, ident('a'), s1, ident('b'), s2, ident('c')], [dom(T1), dom(T2)]),
+            ('a T1 not b T2 c', [ident('a'), s1, NOT, ident('b'), s2, ident('c')], [dom(T1), dom(T2)]),
         ]
-        expected = len(ops) * len(ops) + 5 * len(ops) + 1
+        expected = 3 * len(ops) * len(ops) + 5 * len(ops) + 1
         if sess.tier == 'thorough' or os.environ.get('VERIF_C06_THREE') == '1':
             # three solver-chosen operators: 20^3 instances, every one enumerated from the paths of the real loop
             streams.append(('a T1 b T2 c T3 d', [ident('a'), s1, ident('b'), s2, ident('c'), s3, ident('d')], [dom(T1), dom(T2), dom(T3)]))
@@ -240,6 +242,22 @@ def reference_tree(label, n1, n2, n3=None):
         if lvl(o2) > lvl(o1):
             return f'({a} {bop(o1)} ({b} {bop(o2)} {c}))'
         return f'(({a} {bop(o1)} {b}) {bop(o2)} {c})'
+    if label == 'not a T1 b T2 c':
+        # NotTest = 'not' NotTest | CompTest: the operand of `not` is the longest run of operators tighter than `not`
+        names, xs = [n1, n2], ['a', 'b', 'c']
+        k = 0
+        while k < len(names) and lvl(names[k]) > c06.NOT_LEVEL:
+            k += 1
+        inner = ref_general(xs[:k + 1], names[:k])
+        if inner == 'error':
+            return 'error'
+        return ref_general([f'(not {inner})'] + xs[k + 1:], names[k:])
+    if label == 'a T1 not b T2 c':
+        if lvl(n1) > c06.NOT_LEVEL:
+            return 'error'          # `not` cannot start an operand of a tighter operator
+        if lvl(n2) > c06.NOT_LEVEL:
+            return f'(a {bop(n1)} (not (b {bop(n2)} c)))'
+        return ref_general(['a', '(not b)', 'c'], [n1, n2])
     if label == 'a T1 b T2 c T3 d':
         return ref_general(['a', 'b', 'c', 'd'], [n1, n2, n3])
     if label == 'a T1 b T2 c':
